@@ -199,7 +199,11 @@ func (p *statePool) get(exp []string) (*core.BuildState, string) {
 	config := core.DefaultConfiguration()
 	config.Please.NumThreads = 2
 	config.Parse.ExperimentalDir = append([]string(nil), exp...)
-	return core.NewBuildState(config), key
+	s := core.NewBuildState(config)
+	// The state's idle cycle detector (fires after 5 s) walks the graph it was created with; give the
+	// monitor its own graph so that nothing reads it concurrently.
+	s.Graph = core.NewGraph()
+	return s, key
 }
 
 func (p *statePool) put(key string, s *core.BuildState) {
